@@ -39,15 +39,17 @@ type corrCase struct {
 	exemptSZ bool
 }
 
-var readOps = []string{"fetch-blob", "fetch-manifest", "fetchref-digest", "fetchref-tag", "fetchref-blob", "resolve-digest", "resolve-tag", "resolve-blob"}
-var writeOps = []string{"push-manifest", "delete-blob", "delete-manifest", "mount"}
+var readOps = []string{"fetch-blob", "fetch-manifest", "fetchref-digest", "fetchref-tag", "fetchref-blob", "resolve-digest", "resolve-tag", "resolve-blob", "exists-blob", "exists-manifest"}
+var writeOps = []string{"push-manifest", "delete-blob", "delete-manifest", "mount", "tag"}
+var digestCorruptions = []string{"dcd-other", "dcd-malformed", "dcd-other-alg"}
 
-var contentCorruptions = []string{"dcd-other", "dcd-malformed", "cl-plus", "cl-minus", "body-trunc", "body-extend", "body-flip", "ct-other", "ct-malformed",
+var contentCorruptions = []string{"dcd-other", "dcd-other-alg", "dcd-malformed", "cl-plus", "cl-minus", "body-trunc", "body-extend", "body-flip", "ct-other", "ct-malformed",
 	"status-404", "status-500", "status-201", "status-206", "status-403"}
 
 func isTagOp(op string) bool    { return strings.HasSuffix(op, "-tag") }
 func isByDesc(op string) bool   { return op == "fetch-blob" || op == "fetch-manifest" }
 func isResolve(op string) bool  { return strings.HasPrefix(op, "resolve-") }
+func isExists(op string) bool   { return strings.HasPrefix(op, "exists-") }
 func isFetchRef(op string) bool { return strings.HasPrefix(op, "fetchref-") }
 func isBlobOp(op string) bool   { return strings.HasSuffix(op, "-blob") }
 
@@ -57,11 +59,11 @@ func classify(c *corrCase, prof regmodel.Profile) {
 	c.class = noWrong
 	headerOnGetIgnored := isFetchRef(c.op) && prof.UnknownLength && c.method == http.MethodGet
 	switch c.corr {
-	case "dcd-other", "dcd-malformed":
+	case "dcd-other", "dcd-other-alg", "dcd-malformed":
 		switch {
 		case isTagOp(c.op):
 			// no digest was requested. HEAD: the header is all there is to know.
-			if c.corr == "dcd-other" && (isResolve(c.op) || c.method == http.MethodHead) {
+			if c.corr != "dcd-malformed" && (isResolve(c.op) || c.method == http.MethodHead) {
 				c.exemptDG = true
 				if isResolve(c.op) {
 					c.class = unjudged
@@ -175,6 +177,8 @@ func runCorrupt(i int) worker.Result {
 		wantAbsent = rng.IntN(7) == 0
 	case "push-manifest", "mount":
 		wantAbsent = true
+	case "tag":
+		v.reg.Profile.StrictRefs = false
 	}
 	n := pickFrom(!wantAbsent)
 	if n == nil {
@@ -209,6 +213,17 @@ func runCorrupt(i int) worker.Result {
 		v.reg.Profile.StrictRefs = false
 		c.absent = false
 	}
+	if c.absent && (isExists(c.op) || c.op == "tag" || strings.HasPrefix(c.op, "delete-")) {
+		// these need the target in place
+		if v.routeManifest(n.desc.MediaType) {
+			v.reg.PutManifest(repoName, n.desc.MediaType, n.bytes)
+			presentMan[n.desc.Digest] = true
+		} else {
+			v.reg.PutBlob(repoName, n.bytes)
+			presentBlob[n.desc.Digest] = true
+		}
+		c.absent = false
+	}
 	tag := "v1"
 	if isTagOp(c.op) {
 		v.reg.PutManifest(repoName, n.desc.MediaType, n.bytes, tag)
@@ -222,14 +237,14 @@ func runCorrupt(i int) worker.Result {
 		c.kind = "blob"
 	}
 	switch {
-	case isResolve(c.op):
+	case isResolve(c.op), isExists(c.op):
 		c.method = http.MethodHead
 	case isFetchRef(c.op):
 		c.method = http.MethodGet
 		if v.prof.UnknownLength && rng.IntN(2) == 0 {
 			c.method = http.MethodHead
 		}
-	case c.op == "push-manifest":
+	case c.op == "push-manifest", c.op == "tag":
 		c.method = http.MethodPut
 	case c.op == "delete-blob", c.op == "delete-manifest":
 		c.method = http.MethodDelete
@@ -242,6 +257,9 @@ func runCorrupt(i int) worker.Result {
 	case c.op == "seek":
 		c.ranged = true
 		c.corr = []string{"range-ignored", "range-ignored", "status-416", "status-500", "status-200-partial"}[rng.IntN(5)]
+	case isExists(c.op):
+		c.corr = digestCorruptions[rng.IntN(len(digestCorruptions))]
+		c.class = mustFail
 	case c.absent:
 		c.corr = []string{"absent-200", "absent-200-claim"}[rng.IntN(2)]
 	case c.method == http.MethodGet || c.method == http.MethodHead:
@@ -253,7 +271,7 @@ func runCorrupt(i int) worker.Result {
 			break
 		}
 	default:
-		c.corr = []string{"dcd-other", "dcd-malformed"}[rng.IntN(2)]
+		c.corr = digestCorruptions[rng.IntN(len(digestCorruptions))]
 		c.class = mustFail
 	}
 	if c.class == "" {
@@ -337,6 +355,10 @@ func corrupt(c *corrCase, variant int, n *node, resp *regmodel.Response) {
 	switch c.corr {
 	case "dcd-other":
 		resp.Header.Set(hdrDCD, digest.FromString(fmt.Sprint("other", variant)).String())
+	case "dcd-other-alg":
+		// a well-formed digest of other content under another registered algorithm
+		alg := []digest.Algorithm{digest.SHA512, digest.SHA384}[variant%2]
+		resp.Header.Set(hdrDCD, alg.FromString(fmt.Sprint("other", variant)).String())
 	case "dcd-malformed":
 		resp.Header.Set(hdrDCD, []string{"sha256:zz", "notadigest", "sha256:" + strings.Repeat("a", 63), n.desc.Digest.String() + "0", "sha256-" + n.desc.Digest.Encoded()}[variant%5])
 	case "cl-plus":
@@ -493,6 +515,17 @@ func (v *env) runCorruptOp(c *corrCase, n *node, tag string) (o corrOutcome) {
 		}
 		o.desc = &desc
 		o.what = fmt.Sprintf("descriptor %s %s %d", desc.MediaType, short(desc.Digest), desc.Size)
+	case "exists-blob", "exists-manifest":
+		ok, err := v.repo.Exists(ctx, n.desc)
+		if err != nil {
+			setErr(err)
+			return
+		}
+		o.what = fmt.Sprintf("Exists = %v", ok)
+	case "tag":
+		if err := v.repo.Tag(ctx, n.desc, "v2"); err != nil {
+			setErr(err)
+		}
 	case "push-manifest":
 		if err := v.repo.Push(ctx, n.desc, bytes.NewReader(n.bytes)); err != nil {
 			setErr(err)
